@@ -40,3 +40,17 @@ Theorem C01_vertex_on_its_planes : forall ps d,
   side (getp ps i) (vloc v) = 0 /\ side (getp ps j) (vloc v) = 0 /\ side (getp ps k) (vloc v) = 0.
 Proof. exact vertex_on_its_planes. Qed.
 Print Assumptions C01_vertex_on_its_planes.
+
+(* ---- the converse inclusion, up to VerticesSpan: every convex combination (non-negative integer weights, homogeneous
+   coordinates) of the vertices of a cell that passes the exact per-run check `vertices_feasible` is at least as close to
+   the generator as to every site.  With C01_cell_superset_voronoi:
+       hull(vertices)  <=  nearest-generator region  <=  polytope(planes),
+   and the three coincide iff the polytope is the hull of the maintained vertices - the one geometric fact not proved *)
+From MV Require Import Proofs.HullProofs.
+Theorem C01_hull_of_vertices_in_region : forall g sites c l,
+  vertices_feasible g sites c = true ->
+  Forall (fun '(lam, p) => 0 <= lam /\ 0 < snd p /\ exists v, In v (cverts c) /\ p = vloc v) l ->
+  Exists (fun '(lam, _) => 0 < lam) l ->
+  forall s, In s sites -> closer g s (hcomb l).
+Proof. exact hull_in_region. Qed.
+Print Assumptions C01_hull_of_vertices_in_region.
